@@ -29,6 +29,9 @@ CHECKS = {
  "C09": ("Exhaustive exploration of (1..3 rules files with distinct rule names and a unique custom message on every clause, document) states: validate --structured -o json is executed in-process and the report is checked to partition the evaluated rule names by the statuses of the library's verbose record, to fold the file status from the partition, to equal the union of the single-file reports, and to list only checks whose message belongs to a FAILed check of that same rule; exit code checked against the file status.",
          "Trusted base: the JSON report extractor, the record walker collecting failed-check messages, the library record as the per-rule status baseline. Completeness of the list of checks is not required by the property and not checked.",
          "exhaustive enumeration of programs x documents x file combinations; report compared with the evaluation record"),
+ "C07": ("Exhaustive cross product over a program/document pool: every (program, document) pair is rendered under 50 configurations (single-line summary x -v x -p x six --show-summary selections; -o json/yaml x summary x -v; structured json/yaml/junit/sarif via files, stdin and --payload; run_checks verbose and non-verbose); each rendering is parsed back by a dedicated extractor into the verdict components it exposes and compared with the library's verbose record; structured JSON/YAML must parse and denote the same data, JUnit must be well-formed with the pair's status as its mark, SARIF must have one result per failing check of the JSON report.",
+         "Trusted base: the extractors in report.rs (console table, detail lines, verbose tree, embedded and structured JSON/YAML, JUnit via quick-xml, SARIF). Console detail lines are checked for soundness only. Documents are generic (not CloudFormation/Terraform shaped).",
+         "exhaustive enumeration of programs x documents x output configurations x entry points, cross-rendering differential oracle"),
 }
 PENDING_REASON = "check under construction in this round (design in DESIGN.md section 5); not claimed until its quick tier runs clean on the unchanged tree"
 ALL = ["C%02d" % i for i in range(1, 20)]
